@@ -2,6 +2,7 @@ import Driver.Echo
 import Driver.Lru
 import Driver.Search
 import Driver.Validate
+import Driver.Metrics
 
 namespace Driver
 
@@ -13,6 +14,7 @@ def dispatch (dom : String) (ops : Array String) : Array String :=
   | "lru" => Lru.runCase ops
   | "search" => Search.runCase ops
   | "validate" => Validate.runCase ops
+  | "metrics" => Metrics.runCase ops
   | _ => ops.map (fun _ => "unknown-domain")
 
 end Driver
